@@ -1,1 +1,126 @@
-//! (filled in with the find properties)
+//! Running find in-process (findutils::find::find_main) with captured output, an
+//! injectable clock, stderr captured to a file and panics caught; or as the real binary.
+use crate::util::*;
+use findutils::find::{find_main, Dependencies};
+use std::cell::RefCell;
+use std::io::Write;
+use std::os::unix::io::AsRawFd;
+use std::os::unix::process::ExitStatusExt;
+use std::path::Path;
+use std::time::SystemTime;
+
+pub struct CapDeps {
+    pub out: RefCell<Vec<u8>>,
+    pub now: SystemTime,
+}
+
+impl Dependencies for CapDeps {
+    fn get_output(&self) -> &RefCell<dyn Write> {
+        &self.out
+    }
+    fn now(&self) -> SystemTime {
+        self.now
+    }
+}
+
+pub struct FindRun {
+    pub out: Vec<u8>,
+    pub exit: i64, // exit status; 101 = panic
+    pub panicked: bool,
+    pub stderr: Vec<u8>,
+}
+
+/// Run find in this process with the working directory `cwd`.  `args` excludes argv[0].
+pub fn run_find_inproc(cwd: &Path, args: &[String], now: Option<SystemTime>, errfile: &Path) -> FindRun {
+    let old = std::env::current_dir().ok();
+    std::env::set_current_dir(cwd).expect("chdir");
+    // capture stderr (diagnostics are data: "at least one diagnostic")
+    let ef = std::fs::File::create(errfile).expect("errfile");
+    let saved = unsafe { libc::dup(2) };
+    unsafe { libc::dup2(ef.as_raw_fd(), 2) };
+    let deps = CapDeps { out: RefCell::new(vec![]), now: now.unwrap_or_else(SystemTime::now) };
+    let mut argv: Vec<&str> = vec!["find"];
+    for a in args {
+        argv.push(a.as_str());
+    }
+    let hook = std::panic::take_hook();
+    std::panic::set_hook(Box::new(|_| {}));
+    let r = std::panic::catch_unwind(std::panic::AssertUnwindSafe(|| find_main(&argv, &deps)));
+    std::panic::set_hook(hook);
+    unsafe {
+        libc::dup2(saved, 2);
+        libc::close(saved);
+    }
+    if let Some(o) = old {
+        let _ = std::env::set_current_dir(o);
+    }
+    let stderr = std::fs::read(errfile).unwrap_or_default();
+    let out = deps.out.borrow().clone();
+    match r {
+        Ok(code) => FindRun { out, exit: code as i64, panicked: false, stderr },
+        Err(_) => FindRun { out, exit: 101, panicked: true, stderr },
+    }
+}
+
+/// Run the real find binary built from /repo.
+pub fn run_find_bin(cwd: &Path, args: &[String], stdin: Option<&[u8]>, env: &[(String, String)], timeout_s: u64) -> FindRun {
+    use std::process::{Command, Stdio};
+    let mut c = Command::new(bin_dir().join("find"));
+    c.args(args).current_dir(cwd);
+    for (k, v) in env {
+        c.env(k, v);
+    }
+    let inp = cwd.join(".stdin.bin");
+    if let Some(s) = stdin {
+        std::fs::write(&inp, s).unwrap();
+        c.stdin(Stdio::from(std::fs::File::open(&inp).unwrap()));
+    } else {
+        c.stdin(Stdio::null());
+    }
+    let outp = cwd.join(".stdout.bin");
+    let errp = cwd.join(".stderr.bin");
+    c.stdout(Stdio::from(std::fs::File::create(&outp).unwrap()));
+    c.stderr(Stdio::from(std::fs::File::create(&errp).unwrap()));
+    let mut child = c.spawn().expect("spawn find");
+    let t0 = std::time::Instant::now();
+    let exit;
+    loop {
+        match child.try_wait() {
+            Ok(Some(st)) => {
+                exit = match st.code() {
+                    Some(c) => c as i64,
+                    None => 1000 + st.signal().unwrap_or(0) as i64,
+                };
+                break;
+            }
+            Ok(None) => {
+                if t0.elapsed().as_secs() > timeout_s {
+                    let _ = child.kill();
+                    let _ = child.wait();
+                    exit = -1;
+                    break;
+                }
+                std::thread::sleep(std::time::Duration::from_micros(300));
+            }
+            Err(_) => {
+                exit = -2;
+                break;
+            }
+        }
+    }
+    let out = std::fs::read(&outp).unwrap_or_default();
+    let stderr = std::fs::read(&errp).unwrap_or_default();
+    for p in [&inp, &outp, &errp] {
+        let _ = std::fs::remove_file(p);
+    }
+    let panicked = exit == 101 || exit == 1006 || String::from_utf8_lossy(&stderr).contains("panicked at");
+    FindRun { out, exit, panicked, stderr }
+}
+
+pub fn split_nul(out: &[u8]) -> Vec<Vec<u8>> {
+    let mut v: Vec<Vec<u8>> = out.split(|b| *b == 0).map(|s| s.to_vec()).collect();
+    if v.last().map(|l| l.is_empty()).unwrap_or(false) {
+        v.pop();
+    }
+    v
+}
